@@ -277,10 +277,14 @@ pub(crate) struct Cfg {
     pub dom: Dom,
     /// location of the command inside a NCODE-command program
     pub loc: usize,
+    /// pre-registered labels point at this location or later (forward / self references only)
+    pub pts_min_loc: usize,
+    /// if set, every pre-registered label points at exactly this (concrete) location
+    pub pts_fixed_loc: Option<usize>,
 }
 pub(crate) const CFG0: Cfg = Cfg {
     kind: 0, h: 1, d: 1, cur: 3, depth: [0; NSTK], area: 0, npts: 0, latest: false,
-    line: None, classes: [1; 4], dom: Dom::I8, loc: 1,
+    line: None, classes: [1; 4], dom: Dom::I8, loc: 1, pts_min_loc: 0, pts_fixed_loc: None,
 };
 
 /// area shapes: both renderings (specification array form, repository tree)
@@ -364,8 +368,11 @@ pub(crate) fn mk_pre(c: &Cfg) -> Pre {
     while k < c.npts {
         let t = any_u8();
         let a = any_u8();
-        let loc = any_u8() as usize;
-        assume(t >= 2 && t <= 12 && loc < 8);
+        let loc = match c.pts_fixed_loc {
+            Some(x) => x,
+            None => any_u8() as usize,
+        };
+        assume(t >= 2 && t <= 12 && loc < 8 && loc >= c.pts_min_loc);
         s.pts[k] = (((a as u128) << 4) + t as u128, loc);
         k += 1;
     }
@@ -1056,3 +1063,8 @@ pub fn spec_selftest() {
     }
     println!("SPEC-SELFTEST: {} programs agree, {} skipped (exceed the definition's fixed arrays)", ran, skipped);
 }
+
+// @h prop=C01 unwind=10 rec=2 cutfmt=1 uw=same_output.0:25;exit_model.0:25;exit.0:25;push.0:17;write.0:17 timeout=1200 what=핫_with_zero_dots:product_goes_to_stack_0(the_input_buffer)
+step!(t_mul_to0, Cfg { kind: 2, h: 2, d: 0, depth: [1, 0, 0, 2, 0, 0], ..CFG0 });
+// @h prop=C01 unwind=10 rec=2 cutfmt=1 uw=same_output.0:25;exit_model.0:25;exit.0:25;push.0:17;write.0:17 timeout=1200 what=흣_with_zero_dots:sum_goes_to_stack_0
+step!(t_neg_to0, Cfg { kind: 3, h: 1, d: 0, depth: [0, 0, 0, 1, 0, 0], ..CFG0 });
